@@ -659,6 +659,16 @@ func (w *runner[T]) run() error {
 		case opPushMany:
 			vs := w.vals(op.Vals)
 			cur.h.Push(vs...)
+			// the batch stays the caller's: it reads as before, and what the caller writes into it afterwards
+			// (here: its first value into every slot) does not reach the heap
+			for j, v := range w.vals(op.Vals) {
+				if vs[j] != v {
+					return fmt.Errorf("%s: after Push(batch...) the caller's batch reads %v, it was %v", w.where(), vs, w.vals(op.Vals))
+				}
+			}
+			for j := range vs {
+				vs[j] = vs[0]
+			}
 			cur.held = append(cur.held, w.vals(op.Vals)...)
 		case opPop:
 			if err := w.take(cur, true); err != nil {
